@@ -89,7 +89,7 @@ def write_replay(prop, master, tier, run, viol, target, original_events, fired, 
     return path
 
 
-def replay_file(path, W=None, quiet=False):
+def replay_file(path, W=None, quiet=False, strict=True):
     """Re-execute a replay file in fresh subprocess interpreters.
     Returns (reproduced, violations)."""
     with open(path) as f:
@@ -108,7 +108,7 @@ def replay_file(path, W=None, quiet=False):
     target = tuple(body["violation_class"])
     got = {runner.triple(v) for v in viol}
     ok = target in got
-    if ok and body.get("violations"):
+    if ok and strict and body.get("violations"):
         want = [v for v in body["violations"] if runner.triple(v) == target]
         have = [v for v in viol if runner.triple(v) == target]
         ok = bool(want) and bool(have) and _observed(want[0]) == _observed(have[0])
@@ -170,12 +170,23 @@ def check(prop, tier, master, workers, budget_s, nruns, repo, write_evidence=Tru
     kf_lines = []
     for k in findings:
         path = os.path.join(VERIF_DIR, k["replay"])
-        ok, _ = replay_file(path, W, quiet=True)
+        ok, _ = replay_file(path, W, quiet=True, strict=False)
         if ok:
             live.append(k)
             kf_lines.append("KNOWN-FINDING: property=%s %s [%s]" % (prop, k["what"], k["id"]))
         else:
             log("note: known finding %s no longer reproduces from %s; its rule is disabled" % (k["id"], k["replay"]))
+
+    # repaired defects must stay repaired: their committed replay files are re-executed first
+    # (a 'fixed' entry suppresses nothing; if the history fails again it is a violation)
+    regressions = []
+    for k in known.load(prop):
+        if k.get("status") == "fixed" and k.get("replay"):
+            path = os.path.join(VERIF_DIR, k["replay"])
+            if os.path.exists(path):
+                ok, _ = replay_file(path, W, quiet=True, strict=False)
+                if ok:
+                    regressions.append((k["id"], path))
 
     agg = {"n": 0, "steps": 0, "fired": {}, "states": set(), "trans": set(), "seqs": {}, "pairs": set(),
            "fail": [], "hashes": {}, "samples": [], "notes": {}}
@@ -309,7 +320,7 @@ def check(prop, tier, master, workers, budget_s, nruns, repo, write_evidence=Tru
     nontrivial = sum(1 for v in agg["seqs"].values() if v)
     ev = {
         "property_id": prop, "tier": tier, "seed": master, "level": "exploration",
-        "wall_s": round(wall, 2), "violations": len(reported),
+        "wall_s": round(wall, 2), "violations": len(reported) + len(regressions),
         "coverage": {
             "evaluations": agg["n"],
             "distinct_nontrivial": nontrivial,
@@ -336,6 +347,8 @@ def check(prop, tier, master, workers, budget_s, nruns, repo, write_evidence=Tru
                                     "numpy", "pyparsing", "pickle", "data files"], "stubbed": []},
             "determinism_subcheck": det,
             "known_findings_reproduced": [k["id"] for k in live],
+            "fixed_findings_replayed": len([k for k in known.load(prop) if k.get("status") == "fixed"]),
+            "fixed_findings_regressed": [kid for kid, _ in regressions],
             "known_finding_hits": known_hits,
             "failing_runs": len(agg["fail"]),
             "minimisation": min_stats,
@@ -367,6 +380,11 @@ def check(prop, tier, master, workers, budget_s, nruns, repo, write_evidence=Tru
         for h in status["harness"][:10]:
             log("HARNESS-ERROR: %s" % h)
         return 2
+    for kid, path in regressions:
+        log("  repaired defect %s reproduces again from its committed replay file" % kid)
+        log("VIOLATION property=%s replay=%s" % (prop, path))
+    if regressions and not reported:
+        return 1
     if reported:
         for t, path, small in reported:
             log("  class %s minimal history: %s" % (list(t), json.dumps(small["events"])))
